@@ -228,6 +228,22 @@ CLAIMED = {
         'introspection binary are not exercised: stated partial). Not generated: enumerations/flags of the dump, error quarks, '
         'pointer and fundamental types, unknown interface names (two unresolved interface types make the writer\'s sort raise).',
    ref='DESIGN.md §4 C12'),
+ 'C15': dict(
+   technique='Coq proof of the writer/reader vocabulary contract on lists regenerated from girwriter.py and girparser.c, and of the attribute round trip (C01 writer model composed with a model of the reader) + translation validation through the real scanner, g-ir-compiler, g_typelib_validate and repository API',
+   text='Theorems (Coq, axiom-free): every element name the GIR writer can emit (extracted from the syntax tree of giscanner/girwriter.py, '
+        'fail-closed) is among the names girepository/girparser.c tests element_name against or starts with "c:" '
+        '(C15_vocabulary_contract, finite); for EVERY parameter slot of the C01 model, what the writer emits is read back by the '
+        'compiler\'s reader as the same direction, caller-allocation, nullable, optional, skip and transfer '
+        '(C15_parameter_flags_roundtrip); the reader as found is refuted (C15_inout_nullable_refuted_before_fix, fix e1eedbc). Tie: GIRs '
+        'written by the real scanner passes for three generators (annotated callables, runtime-dump worlds, declaration worlds) are '
+        'compiled by the real g-ir-compiler (must be silent), validated by g_typelib_validate and walked through the repository API; '
+        'top-level names, callable paths, parameter lists and every parameter/return flag are compared (flags inside Coq against '
+        'Model.C15).',
+   note='PARTIAL: the whole-pipeline statement (every scanner output is accepted and faithfully exposed) is validated per run, not '
+        'proved; proved are the vocabulary contract and the parameter attribute round trip. Trusted: Coq kernel+VM; gen_c15.py '
+        '(Python-ast walk of girwriter.py, regex over girparser.c); stub lexer and stub include GIRs; docs/gir-1.2.rnc is not consulted. '
+        'Not generated: unions with function-pointer members (F14), gunichar constants (F16), type structure (C06).',
+   ref='DESIGN.md §4 C15'),
 }
 
 PLANNED = {}
